@@ -164,7 +164,7 @@ def run(ctx):
         # every score meets every scale (small absolute intensities move windows towards the eps guard)
         c1 = [0.5, 2.0, 1e-3, 100.0, 7.0][(it // 5) % 5]
         c2 = [1e-4, 3.0, 1e3, 0.25, 50.0][(it // 5) % 5]
-        off = float(rng.choice([-3.0, 1.0, 20.0]))
+        off = float([-3.0, 400.0, 1.0, -2000.0, 20.0][(it // 5 + it) % 5])   # incl. offsets of hundreds of template deviations
         base, _, _, _ = _scan(score, target, template, mask, tmask, R, double)
         s_t, _, _, _ = _scan(score, target, template * c1, mask, tmask, R, double)
         s_o, _, _, _ = _scan(score, target, template + off, mask, tmask, R, double)
@@ -177,6 +177,9 @@ def run(ctx):
         stable = wv > 1e-6 * max(wv.max(), 1e-30)
         for name, arr in (("template scaled by c>0", s_t), ("template offset", s_o), ("target scaled by c>0", s_f)):
             dd = float(np.max(np.abs(arr - base)[stable])) if stable.any() else 0.0
+            # the template is standardised after its mean has been removed, so an offset costs ~1e-5 even at 2000 (float32):
+            # tau itself is the allowance there, not 10 tau
+            tol = TAU[double] if name == "template offset" else 10 * TAU[double]
             ctx.spec(f"score unchanged: {name}", inp, dd <= tol, {"max diff": dd, "tol": tol},
                      key=f"{score}:invariance:{name.split()[0]}-{name.split()[1]}")
         ctx.distinct(("inv", score, tuple(ns), tuple(ms), c1, c2, off, double))
@@ -188,11 +191,12 @@ def run(ctx):
         score = NORMALISED[it % 5]
         nd = 2 if it % 2 else 3
         double = bool((it // 5) % 2)
-        m = int(rng.integers(3, 5))
+        m = int(rng.integers(3, 5)) if it % 3 else int(rng.choice([5, 6, 5, 9] if nd == 2 else [5, 5, 6]))
         ms = [m] * nd
         ns = [int(rng.integers(2 * m + 1, 2 * m + (7 if nd == 2 else 4))) for _ in range(nd)]
         template = _template(rng, ms)
         mask = _mask(rng, ms, score)
+        padf = bool((it // 2) % 2 == 0)        # with and without Fourier padding (the copy lies inside the target either way)
         rots = [r for r in S.grid_rotations(nd) if S.rot_ok_for_shape(r[0], ms)]
         if score == "FLCSphericalMask":
             mask = _sym_mask(mask, rots)
@@ -214,7 +218,7 @@ def run(ctx):
         njobs = 2 if it % 4 == 1 else 1       # rotations spread over two inner jobs and merged
         S.set_precision(double)
         try:
-            res, fp = S.run_scan(score, target, template, mask=mask, target_mask=tmask, rotations=R, pad=True, order=1,
+            res, fp = S.run_scan(score, target, template, mask=mask, target_mask=tmask, rotations=R, pad=padf, order=1,
                                  dtype=np.float64 if double else np.float32, n_jobs=njobs)
         finally:
             S.set_precision(False)
@@ -223,7 +227,7 @@ def run(ctx):
         rot_ids, table = np.asarray(res[2]), dict(res[3])
         tau = TAU[double]
         inp = {"score": score, "ns": ns, "ms": ms, "planted_at": p, "n_jobs": njobs, "border": border, "rotation": {"perm": perm, "flip": flip},
-               "n_rot": int(len(sel)), "double": double, "mask_full": bool(mask.all())}
+               "n_rot": int(len(sel)), "double": double, "mask_full": bool(mask.all()), "pad_fourier": padf}
         best = np.unravel_index(int(np.nanargmax(sc)), sc.shape)
         okpos = [int(x) for x in best] == p or abs(sc[tuple(p)] - np.nanmax(sc)) <= tau
         ctx.spec("planted copy: highest score of the whole search is at the planted position", inp, bool(okpos),
@@ -249,7 +253,7 @@ def run(ctx):
         # the Lean model on the same input: planted value is 1 there as well (tie of the formulas used by the theorems)
         if it % 4 == 0 and score != "MCC":
             eps = float(np.finfo(np.float64 if double else np.float32).eps)
-            r = d.call("c01.float", what="spec", score=score, pad=True, mode="same", ns=ns, ms=ms, Ns=[int(x) for x in fp[1]],
+            r = d.call("c01.float", what="spec", score=score, pad=padf, mode="same", ns=ns, ms=ms, Ns=[int(x) for x in fp[1]],
                        perm=perm, flip=flip, eps=eps, order=1, target=target.reshape(-1).tolist(), template=template.reshape(-1).tolist(),
                        mask=mask.reshape(-1).tolist())
             mv = np.array([dec_float(x) for x in r]).reshape(ns)
